@@ -59,7 +59,7 @@ impl Property for C05 {
         "C05"
     }
     fn rule(&self) -> String {
-        "Cases: (operand of any zoo type/length/provenance, shift amount of one of six native types, direction, one of six operator forms) and (operand, shl_in|shr_in, supplied bit). Amounts: relative to the length (0..2n+1), a lattice {0,1,w-1,w,w+1,n-1,n,n+1,2n,2^8-1,2^16,2^32,2^64-1,2^64,2^64+1,2^64+n-1,2^100,type max}, and uniform over the whole type. Enumerated: every (n,k), n<=min(C,72) quick / 320 thorough, k in 0..n+2, three value classes, 19 types, both directions, amount type and form rotating over all 36 combinations (all 36 for n<=20); all values for n<=8; shl_in/shr_in on all values n<=10 and every length with three value classes. Oracle: index arithmetic on the bit list + observer battery; returned bit of shl_in/shr_in. Non-trivial: 0<k<n with some set bit surviving and some set bit falling off; for shl_in/shr_in: n>=2. Distinct by hash of the case.".into()
+        "Cases: (operand of any zoo type/length/provenance, shift amount of one of six native types, direction, one of six operator forms) and (operand, shl_in|shr_in, supplied bit). Amounts: relative to the length (0..2n+1), a lattice {0,1,w-1,w,w+1,n-1,n,n+1,2n,2^8-1,2^16,2^32,2^64-1,2^64,2^64+1,2^64+n-1,2^100,type max}, and uniform over the whole type. Enumerated: every (n,k), n<=min(C,72) quick / 320 thorough, k in 0..n+2, three value classes, 20 types, both directions, amount type and form rotating over all 36 combinations (all 36 for n<=20); all values for n<=8; shl_in/shr_in on all values n<=10 and every length with three value classes. Oracle: index arithmetic on the bit list + observer battery; returned bit of shl_in/shr_in. Non-trivial: 0<k<n with some set bit surviving and some set bit falling off; for shl_in/shr_in: n>=2. Distinct by hash of the case.".into()
     }
     fn random_cases(&self, tier: Tier) -> u64 {
         tier.pick(200000, 8000000)
@@ -79,9 +79,9 @@ impl Property for C05 {
     }
     fn exhaustive_subspaces(&self, tier: Tier) -> Vec<String> {
         vec![
-            format!("every (length n, amount k) with n<=min(capacity,{}) and k in 0..=n+2, three value classes, both directions, all 19 types (amount type x form rotate; all 36 combinations for n<=20)", tier.pick(72, 320)),
-            "all values for n<=8 x every k in 0..=n+1 x both directions x 19 types".into(),
-            "shl_in/shr_in: all values n<=10 x both supplied bits x 19 types".into(),
+            format!("every (length n, amount k) with n<=min(capacity,{}) and k in 0..=n+2, three value classes, both directions, all 20 types (amount type x form rotate; all 36 combinations for n<=20)", tier.pick(72, 320)),
+            "all values for n<=8 x every k in 0..=n+1 x both directions x 20 types".into(),
+            "shl_in/shr_in: all values n<=10 x both supplied bits x 20 types".into(),
         ]
     }
     fn enumerate(&self, tier: Tier, sh: &mut Shard, f: &mut dyn FnMut(C05Case) -> bool) {
@@ -121,6 +121,30 @@ impl Property for C05 {
                         let c = C05Case::Shift { a: Operand::canon(t, Bits::ones(n)), amt: Nat::new(ty, x), left: rot % 2 == 0, form: SH_FORMS[rot % 6] };
                         if !f(c) {
                             return;
+                        }
+                    }
+                }
+            }
+        }
+        // vectors of thousands of bits: amounts around 1024 and around n, all six forms
+        for t in [TID_D, TID_A] {
+            for n in [1100usize, 2047, 2048, 2049, 4096, 4100] {
+                if !sh.mine() {
+                    continue;
+                }
+                let ks = [1usize, 63, 64, 1000, 1023, 1024, 1025, 1030, 1044, 1088, n - 1024, n - 65, n - 64, n - 1];
+                for a in [Bits::ones(n), realize_val(&ValPat::Dense(vec![0x9E37_79B9_7F4A_7C15, 0xD1B5_4A32_D192_ED03, 0x0123_4567_89AB_CDEF]), n, 64), realize_val(&ValPat::OneHot(1000), n, 64)] {
+                    for &k in &ks {
+                        if k >= n {
+                            continue;
+                        }
+                        for left in [true, false] {
+                            for form in SH_FORMS {
+                                let c = C05Case::Shift { a: Operand::canon(t, a.clone()), amt: Nat::new(NatTy::Usize, k as u128), left, form };
+                                if !f(c) {
+                                    return;
+                                }
+                            }
                         }
                     }
                 }
